@@ -4,8 +4,13 @@ package drv
 
 import (
 	"bufio"
+	"bytes"
 	"encoding/json"
+	"fmt"
 	"os"
+	"os/exec"
+	"strings"
+	"time"
 )
 
 type Env struct {
@@ -71,4 +76,75 @@ func (t *TraceWriter) Flush() { t.w.Flush() }
 func (t *TraceWriter) Close() error {
 	t.w.Flush()
 	return t.fp.Close()
+}
+
+// RunChild re-executes this binary on a single scenario so that a crash of the code under test
+// (panic, fatal runtime error such as stack exhaustion) is observed instead of killing the driver.
+// It returns the trace lines the child wrote, whether it died, and the tail of its stderr.
+func RunChild(driver string, scen interface{}, seed int64, timeoutSec int) (lines []json.RawMessage, died bool, stderrTail string) {
+	dir, err := os.MkdirTemp("", "lalverif-child")
+	if err != nil {
+		return nil, true, err.Error()
+	}
+	defer os.RemoveAll(dir)
+	in, out := dir+"/in.ndjson", dir+"/out.ndjson"
+	b, _ := json.Marshal(scen)
+	os.WriteFile(in, append(b, '\n'), 0644)
+	cmd := exec.Command(os.Args[0], "-driver", driver, "-in", in, "-out", out, "-seed", fmt.Sprint(seed), "-child", "1")
+	var eb bytes.Buffer
+	cmd.Stderr = &eb
+	cmd.Stdout = &eb
+	done := make(chan error, 1)
+	if err := cmd.Start(); err != nil {
+		return nil, true, err.Error()
+	}
+	go func() { done <- cmd.Wait() }()
+	select {
+	case err = <-done:
+	case <-time.After(time.Duration(timeoutSec) * time.Second):
+		cmd.Process.Kill()
+		<-done
+		err = fmt.Errorf("timeout")
+		eb.WriteString("\nCHILD-TIMEOUT\n")
+	}
+	if ob, e2 := os.ReadFile(out); e2 == nil {
+		for _, l := range bytes.Split(ob, []byte("\n")) {
+			if len(l) > 0 {
+				lines = append(lines, json.RawMessage(append([]byte{}, l...)))
+			}
+		}
+	}
+	s := eb.String()
+	if len(s) > 6000 {
+		s = s[:3000] + "\n...\n" + s[len(s)-3000:]
+	}
+	return lines, err != nil, s
+}
+
+// PanicSig extracts (kind, innermost lal frame) from a Go crash dump.
+func PanicSig(stderr string) (kind string, frame string) {
+	kind = "unknown"
+	for _, l := range strings.Split(stderr, "\n") {
+		if strings.HasPrefix(l, "panic: ") || strings.HasPrefix(l, "fatal error: ") || strings.HasPrefix(l, "runtime: goroutine stack exceeds") {
+			kind = l
+			if len(kind) > 80 {
+				kind = kind[:80]
+			}
+			break
+		}
+	}
+	if strings.Contains(stderr, "CHILD-TIMEOUT") {
+		kind = "timeout"
+	}
+	for _, l := range strings.Split(stderr, "\n") {
+		if strings.HasPrefix(l, "github.com/q191201771/lal/pkg/") {
+			frame = l
+			if i := strings.Index(frame, "("); i > 0 {
+				frame = frame[:i]
+			}
+			frame = strings.TrimPrefix(frame, "github.com/q191201771/lal/pkg/")
+			break
+		}
+	}
+	return
 }
